@@ -300,7 +300,8 @@ def oracle_parallel(args, stack, r, dk="loky"):
         exp_n = nj_arg
     else:
         v = lookup("n_jobs", {}, stack, [None])[0]
-        exp_n = 1 if v is None else v
+        # nothing given: the default of the backend the call REALLY uses (the user-defined process backend declares -1)
+        exp_n = (-1 if kind == "cproc" else 1) if v is None else v
         # the one documented exception (asserted by test_backend_hinting_and_constraints): a process backend
         # named by the context is replaced because of require='sharedmem' -> the backend's default n_jobs
         if cb is not None and require == 1 and cb[0] not in SHM:
@@ -476,6 +477,8 @@ RED_SPECS = [
     ("config", {"backend": ["invalid"]}),
     ("backend", {"backend": ["inst", "thr", None, True]}),
     ("backend", {"backend": ["inst", "loky", 1, False], "n_jobs": [2]}),
+    # a context backend whose default_n_jobs is -1, no n_jobs anywhere
+    ("config", {"backend": ["inst", "cproc", None, False]}),
     # refused constructions that carry real settings (nothing of them may be installed)
     ("config", {"inner": 2, "n_jobs": [3], "verbose": 7, "mmap": 4}),
     ("config", {"params": True, "n_jobs": [2], "prefer": 1, "temp": 2}),
@@ -499,6 +502,8 @@ RED_ARGS = [
     {"prefer": 2, "require": 1}, {"prefer": 3}, {"require": 2},
     {"verbose": 70}, {"temp": 2}, {"mmap": 0}, {"maxnb": ["int", 5]}, {"maxnb": ["str", 3, "G"]},
     {"maxnb": ["str", 5, "X"]}, {"verbose": 3, "temp": 2, "mmap": 2, "maxnb": ["none"]},
+    # explicit means passed, not truthy: falsy / default-equal explicit values
+    {"verbose": 0}, {"temp": 0}, {"maxnb": ["int", 0]}, {"maxnb": ["none"]}, {"n_jobs": [1]}, {"n_jobs": [0]},
 ]
 RED_ACTIVE = [["active", None, None], ["active", 1, None], ["active", None, 1], ["active", 2, 1], ["config"]]
 
@@ -900,6 +905,21 @@ def gen_pool_stream(tmp):
         {"mode": "pool", "backend": m, "args": {"temp_folder": A}, "enclosing": None, "objkw": {"temp_folder": O}},
         {"mode": "pool", "backend": m, "args": {}, "enclosing": {"temp_folder": C}, "objkw": {"temp_folder": O}},
     ]
+    lk = "loky"
+    out["tf-unset"] += [
+        # explicit means passed, not truthy: 0 must reach the executor / pool
+        {"mode": "pool", "backend": lk, "args": {"idle_worker_timeout": 0}, "enclosing": {"backend": lk, "idle_worker_timeout": 5}, "objkw": None},
+        {"mode": "pool", "backend": lk, "args": {}, "enclosing": {"backend": lk, "idle_worker_timeout": 5}, "objkw": None},
+        {"mode": "pool", "backend": lk, "args": {"idle_worker_timeout": 0}, "enclosing": None, "objkw": None},
+        {"mode": "pool", "backend": lk, "args": {"idle_worker_timeout": 7}, "enclosing": None, "objkw": {"idle_worker_timeout": 0}},
+        {"mode": "pool", "backend": lk, "args": {"max_nbytes": 0}, "enclosing": {"max_nbytes": 100}, "objkw": None},
+        {"mode": "pool", "backend": m, "args": {"max_nbytes": 0, "verbose": 0}, "enclosing": {"max_nbytes": 100, "verbose": 60}, "objkw": None},
+        {"mode": "pool", "backend": m, "args": {"max_nbytes": None}, "enclosing": {"max_nbytes": 100}, "objkw": None},
+        # the n_jobs a backend asks for nested calls: the same in process workers (pickled batch) and in threads
+        {"mode": "nestednjobs", "base": "loky", "nested_n_jobs": 3},
+        {"mode": "nestednjobs", "base": "threading", "nested_n_jobs": 3},
+        {"mode": "nestednjobs", "base": "multiprocessing", "nested_n_jobs": 3},
+    ]
     return out, {"A": A, "C": C, "O": O, "E": E}
 
 
@@ -912,6 +932,13 @@ def oracle_pool(env, c, r, paths, prev=None):
     if "harness_error" in r:
         return "harness error " + r["harness_error"]
     envp = env[3:] if env.startswith("tf:") else None
+    if c["mode"] == "nestednjobs":
+        for w in r["workers"]:
+            if w["context_n_jobs"] != c["nested_n_jobs"] or w["parallel_n_jobs"] != c["nested_n_jobs"]:
+                where = "a worker process (the batch was pickled)" if w["pid"] != r["caller_pid"] else "a worker thread"
+                return ("a %s-based backend asks n_jobs=%d for nested calls (get_nested_backend), but in %s the context says n_jobs=%r "
+                        "and a nested Parallel() gets n_jobs=%r" % (c["base"], c["nested_n_jobs"], where, w["context_n_jobs"], w["parallel_n_jobs"]))
+        return None
     if c["mode"] == "tempdir":
         exp = c["arg"] or envp or r["default_parent"]
         return None if r["parent"] == exp else "_get_temp_dir(name, %r) with JOBLIB_TEMP_FOLDER=%r uses %r, expected %r" % (
@@ -931,6 +958,19 @@ def oracle_pool(env, c, r, paths, prev=None):
         if r["maxtasksperchild"] != want:
             return ("the pool was built with maxtasksperchild=%r, expected %r (Parallel argument %r > the backend object's own %r)" % (
                 r["maxtasksperchild"], want, c["args"].get("maxtasksperchild"), obj))
+    if r["built"]:
+        kw = r["built"][0]["kwargs"]
+        if c["backend"] == "loky":
+            obj = (c.get("objkw") or {}).get("idle_worker_timeout", (c.get("enclosing") or {}).get("idle_worker_timeout"))
+            want = c["args"]["idle_worker_timeout"] if "idle_worker_timeout" in c["args"] else (obj if obj is not None else 300)
+            if kw.get("timeout") != want:
+                return ("the loky executor was built with idle timeout %r, expected %r (Parallel argument %r -- passed, even if 0 -- > "
+                        "the backend object's %r > 300)" % (kw.get("timeout"), want, c["args"].get("idle_worker_timeout", "<not passed>"), obj))
+        if "max_nbytes" in c["args"] or "max_nbytes" in (c.get("enclosing") or {}):
+            want = c["args"]["max_nbytes"] if "max_nbytes" in c["args"] else c["enclosing"]["max_nbytes"]
+            if kw.get("max_nbytes", "<absent>") != want:
+                return "the %s pool was built with max_nbytes=%r, expected %r (an explicit 0 / None is an explicit value)" % (
+                    c["backend"], kw.get("max_nbytes", "<absent>"), want)
     if len(r["built"]) != 1 or r["built"][0]["size"] != 2:
         return "the pool / executor was built %s, expected once with 2 workers" % r["built"]
     return None
@@ -1166,6 +1206,21 @@ def run(ctx):
                 life_problems.append((bad, dict(c, env=env), r))
             if "harness_error" in r:
                 continue
+            if c["mode"] == "nestednjobs":
+                fnk = "batch_njobs_in_worker reduce_keeps_njobs" if use_mpc else "batch_njobs_in_worker true"
+                for w in r["workers"]:
+                    pexprs.append("match %s %s (Some %d) with Some v => [v] | None => [0] end" % (
+                        fnk, "true" if w["pid"] != r["caller_pid"] else "false", c["nested_n_jobs"]))
+                    pmeta.append((dict(c, env=env), [w["context_n_jobs"] or 0], r))
+                pool_stats["nested_probes"] = pool_stats.get("nested_probes", 0) + len(r["workers"])
+                continue
+            if c["mode"] == "pool" and c["backend"] == "loky" and r["built"]:
+                obj = (c.get("objkw") or {}).get("idle_worker_timeout", (c.get("enclosing") or {}).get("idle_worker_timeout"))
+                call = c["args"].get("idle_worker_timeout")
+                fni = "src_idle_worker_timeout" if use_mpc else "(fun c o => Ok (gcp c o 300))"
+                pexprs.append("match %s %s %s with Ok v => [v] | Raise _ => [-1] end" % (
+                    fni, "None" if call is None else "(Some %d)" % call, "None" if obj is None else "(Some %d)" % obj))
+                pmeta.append((dict(c, env=env), [r["built"][0]["kwargs"].get("timeout", -1)], r))
             if c["mode"] == "pool" and c["backend"] == "loky":
                 g_ = c["args"].get("temp_folder") or (c.get("enclosing") or {}).get("temp_folder") or envp or r["default_parent"]
                 reused = prev is not None and prev[0] == r["executor_id"]
@@ -1190,7 +1245,8 @@ def run(ctx):
                 pexprs.append("match %s %s %s with Some v => [v] | None => [0] end" % (
                     fn2, "None" if obj is None else "(Some %d)" % obj, "None" if call is None else "(Some %d)" % call))
                 pmeta.append((dict(c, env=env), [r["maxtasksperchild"] or 0], r))
-    pvals = ctx.coq_eval_lines(REQ_LIFE % (" JV.Gen.T_pool_settings" if use_ps else ""), "", pexprs, name="c17_pool")
+    pvals = ctx.coq_eval_lines(REQ_LIFE % ((" JV.Gen.T_pool_settings" if use_ps else "") + (" JV.Gen.T_mp_context" if use_mpc else "")),
+                               "", pexprs, name="c17_pool")
     for (c, iv, r), v in zip(pmeta, pvals):
         if parse_coq_lists(v) != iv:
             disagreements.append({"case": c, "function": "src_temp_folder / src_mp_pool_kwarg", "impl": iv, "model": v, "raw": r})
